@@ -937,6 +937,19 @@ func (e *Env) callExpr(c *CExpr) val {
 		a := e.eval(c.Args[0])
 		vc.regComp("SendAttempts", "(Array Int Int)")
 		return intVal(sel(vc.get(e.cur, "SendAttempts"), a.t))
+	case "hits":
+		// hits("call f#k"): how many times this activation has executed that call site so far (ghost)
+		argn(1)
+		if c.Args[0].Op != "str" {
+			e.fail("hits() takes a call-site name as a string literal")
+		}
+		site := c.Args[0].Name
+		if vc.hitsUsed == nil {
+			vc.hitsUsed = map[string]bool{}
+		}
+		vc.hitsUsed[site] = true
+		vc.regComp("SiteHits", "(Array Int Int)")
+		return intVal(sel(vc.get(e.cur, "SiteHits"), vc.siteID(site)))
 	case "lastsent":
 		// lastsent(ch): the value of the latest send statement on ch by this activation's thread (ghost; channels of
 		// reference-like elements only)
